@@ -5,6 +5,7 @@ import (
 	"go/ast"
 	"go/token"
 	"go/types"
+	"golang.org/x/tools/go/cfg"
 )
 
 func init() {
@@ -30,6 +31,7 @@ func checkC03(p *Prog, r *Report) {
 	r.rule("C03.P4", "Recv sets ASK_TELL when the delivery queue was full before popping and has room afterwards", 1)
 	r.rule("C03.P5", "rmt_wnd is stored only by the constructor and, in Input, from the header's wnd under pktType == IKCP_PACKET_REGULAR", 2)
 	r.rule("C03.P6", "every emitted segment's wnd comes from wnd_unused() (= C04.W3)", 2)
+	r.rule("C03.P9", "with congestion control on, the sender can always resume: a clamp of cwnd to another quantity stores a value >= 1 (so an advertised window of 0 cannot zero it), and if the constructor leaves cwnd below 1 every congestion-controlled flush ends with cwnd >= 1", 2)
 	r.rule("C03.P8", "no data is lost under back-pressure: a segment that Input acknowledges is stored unless it is outside the window or a duplicate (= C02.A1b)", 1)
 	r.rule("C03.P7", "duplicates of already delivered segments are re-acknowledged: ack_push is controlled by the upper window edge only", 1)
 
@@ -116,6 +118,48 @@ func checkC03(p *Prog, r *Report) {
 			inspectShallow(nd, func(x ast.Node) bool {
 				if call, ok := x.(*ast.CallExpr); ok && p.Callee(call) == p.Method("segment", "encode") {
 					okEnc = true
+				}
+				// a local emit helper: emitProbe(IKCP_CMD_WASK, ...) whose body stores its parameter into cmd and encodes
+				if call, ok := x.(*ast.CallExpr); ok {
+					if id, isId := ast.Unparen(call.Fun).(*ast.Ident); isId {
+						if v, isV := p.Info.Uses[id].(*types.Var); isV {
+							as := p.Assignments(flush, v)
+							if len(as) == 1 && as[0].Rhs != nil {
+								if lit, isLit := ast.Unparen(as[0].Rhs).(*ast.FuncLit); isLit {
+									if li := p.funcBy[lit]; li != nil {
+										cmdParam := -1
+										enc := false
+										ast.Inspect(lit.Body, func(y ast.Node) bool {
+											if a2, ok := y.(*ast.AssignStmt); ok && len(a2.Lhs) == 1 && len(a2.Rhs) == 1 {
+												if lt := p.Term(a2.Lhs[0]); lt.Op == "fld" && lt.Obj == p.Field("segment", "cmd") {
+													if rt := p.Term(a2.Rhs[0]); rt.Op == "var" {
+														for i := 0; ; i++ {
+															o := li.paramObj(p, i)
+															if o == nil {
+																break
+															}
+															if o == rt.Obj {
+																cmdParam = i
+															}
+														}
+													}
+												}
+											}
+											if c2, ok := y.(*ast.CallExpr); ok && p.Callee(c2) == p.Method("segment", "encode") {
+												enc = true
+											}
+											return true
+										})
+										if cmdParam >= 0 && cmdParam < len(call.Args) && enc {
+											if cv := p.Term(call.Args[cmdParam]); cv.IsConst() && cv.Int == e.cmd {
+												okCmd, okEnc = true, true
+											}
+										}
+									}
+								}
+							}
+						}
+					}
 				}
 				return true
 			})
@@ -345,6 +389,7 @@ func checkC03(p *Prog, r *Report) {
 	// ---- P7
 	checkAckEveryPush(p, r, "C03.P7")
 	checkAckedIsAccepted(p, r, "C03.P8")
+	checkCwndNeverStuck(p, r, "C03.P9")
 }
 
 func checkProbeTimer(p *Prog, r *Report, flush *FuncInfo) {
@@ -467,4 +512,132 @@ func dbgP4(p *Prog) {
 		}
 		return true
 	})
+}
+
+// checkCwndNeverStuck: cwnd only grows when snd_una advances and is only reset by a
+// timeout, so a cwnd of 0 is a permanent stall: nothing is admitted, nothing is
+// acknowledged, nothing times out.
+func checkCwndNeverStuck(p *Prog, r *Report, rule string) {
+	fCwnd := p.Field("KCP", "cwnd")
+	fIncr := p.Field("KCP", "incr")
+	ctorLow := true // the constructor leaves cwnd at its zero value unless it stores >= 1
+	n := 0
+	for _, st := range p.FieldStores(fCwnd) {
+		if st.Fn.Name == "NewKCP" {
+			if st.Rhs != nil {
+				if v, ok := p.constVal(st.Rhs); ok && v >= 1 {
+					ctorLow = false
+				}
+			}
+			continue
+		}
+		if st.Rhs == nil {
+			continue // ++ cannot produce 0 from a non-negative value (wrap-around aside)
+		}
+		fs := p.FactsOf(rootFuncInfo(st.Fn)).AtNode(st.Node)
+		t := p.Term(st.Rhs)
+		if v, ok := p.constVal(st.Rhs); ok {
+			n++
+			r.check(v >= 1, rule, st.Fn.Name, p.Pos(st.Node), "cwnd = "+exprString(st.Rhs), "constant >= 1", "cwnd is set to 0: with congestion control on nothing is ever admitted again")
+			continue
+		}
+		// growth formulas (built from cwnd / incr themselves) are not clamps
+		if termHasField(t, fCwnd) || termHasField(t, fIncr) {
+			continue
+		}
+		n++
+		ok := fs.Holds(le(tConst(1), t)) || fs.Holds(le(tConst(1), fs.Resolve(t)))
+		if !ok && t.Op == "+" {
+			// a sum is at least the sum of the lower bounds of its operands
+			sum := int64(0)
+			all := true
+			for _, a := range t.Args {
+				lo, okLo := fs.lowerConst(fs.resolvedAtoms(), a, 0)
+				if !okLo {
+					all = false
+					break
+				}
+				sum += lo
+			}
+			ok = all && sum >= 1
+		}
+		r.check(ok, rule, st.Fn.Name, p.Pos(st.Node), "cwnd = "+exprString(st.Rhs), "the value stored is >= 1 on every path", "cwnd is clamped to "+exprString(st.Rhs)+", which can be 0 here (e.g. the peer advertises a closed window): cwnd only grows when snd_una advances and is only reset by a timeout, so with cwnd == 0 and nothing in flight the sender never transmits again although the peer's window re-opens; facts: "+pretty(fs.String()))
+	}
+	if n == 0 {
+		r.bad(rule, "(*KCP)", "-", "stores to cwnd", "no store to cwnd found", "")
+	}
+	if ctorLow {
+		// every congestion-controlled flush ends with cwnd >= 1: the floor test lies on every path from the
+		// nocwnd == 0 branch to the return
+		flush := p.FuncOf(p.Method("KCP", "flush"))
+		c := p.CFG(flush)
+		kcp := tVar(p.recvVar(flush))
+		cw := tFld(kcp, fCwnd)
+		isFloor := func(nd ast.Node, pt Point) bool {
+			// the store cwnd = c (c >= 1) under cwnd < 1
+			as, ok := nd.(*ast.AssignStmt)
+			if !ok || len(as.Lhs) != 1 || len(as.Rhs) != 1 || p.Term(as.Lhs[0]).Key() != cw.Key() {
+				return false
+			}
+			return false
+		}
+		_ = isFloor
+		var floorBlk *cfg.Block
+		for _, b := range c.live {
+			ct := c.CondTerm(b)
+			if ct == nil || len(b.Succs) != 2 {
+				continue
+			}
+			if ct.Key() == lt(cw, tConst(1)).Key() || ct.Key() == eq(cw, tConst(0)).Key() || ct.Key() == le(cw, tConst(0)).Key() {
+				// the true edge stores a constant >= 1
+				for _, nd := range b.Succs[0].Nodes {
+					if as, ok := nd.(*ast.AssignStmt); ok && len(as.Lhs) == 1 && len(as.Rhs) == 1 && p.Term(as.Lhs[0]).Key() == cw.Key() {
+						if v, okc := p.constVal(as.Rhs[0]); okc && v >= 1 {
+							floorBlk = b
+						}
+					}
+				}
+			}
+		}
+		ok := false
+		why := "flush has no floor `if cwnd < 1 { cwnd = 1 }` although the constructor starts cwnd at 0"
+		if floorBlk != nil {
+			// every full flush with nocwnd == 0 reaches it: from each block that branches on nocwnd == 0 (true edge) no path to the exit avoids it
+			ok = true
+			found := false
+			for _, b := range c.live {
+				ct := c.CondTerm(b)
+				if ct == nil || len(b.Succs) != 2 || ct.Key() != eq(tFld(kcp, p.Field("KCP", "nocwnd")), tConst(0)).Key() {
+					continue
+				}
+				if !c.BlockDominates(b, floorBlk) {
+					continue
+				}
+				found = true
+				noStore := true
+				for _, st := range p.FieldStores(p.Field("KCP", "nocwnd")) {
+					if st.Fn == flush {
+						noStore = false
+					}
+				}
+				nocwndKey := ct.Key()
+				res := c.FindPath(PathQuery{From: Point{b.Succs[0], 0}, ExitIsTarget: true, OnBlock: func(x *cfg.Block) (bool, bool) { return false, x == floorBlk },
+					EdgeOK: func(from, to *cfg.Block) bool {
+						// nocwnd is not modified by flush: a later test of the same condition takes the same branch
+						if t2 := c.CondTerm(from); noStore && t2 != nil && len(from.Succs) == 2 && t2.Key() == nocwndKey && to == from.Succs[1] {
+							return false
+						}
+						return true
+					}})
+				if res.Found {
+					ok = false
+					why = "a congestion-controlled flush can return without passing the floor test: " + c.DescribePath(res.Path)
+				}
+			}
+			if !found {
+				ok, why = false, "the floor test is not inside the nocwnd == 0 branch of flush"
+			}
+		}
+		r.check(ok, rule, flush.Name, p.Pos(flush.Node), "cwnd floor at the end of flush", "if cwnd < 1 { cwnd = 1 } on every congestion-controlled path", why+": cwnd starts at 0 and would never leave it")
+	}
 }
